@@ -15,6 +15,7 @@ import (
 	"reflect"
 	"sort"
 	"strings"
+	"sync/atomic"
 	"time"
 
 	"github.com/goreleaser/nfpm/v2"
@@ -174,6 +175,48 @@ func planOnce(pc *PlanCase, k int) (string, string, []M) {
 	return st, msg, out
 }
 
+// planViaConfig plans the same list the way a user of the configuration file gets it: the list is the `contents` of a parsed
+// configuration that also has an override block (touching other fields) for every format, the effective settings are asked for
+// every other format first and for pc.Pk last, and that Info is prepared for pc.Pk.  "agrees" / "differs" / "skipped" (the
+// configuration as a whole is not valid, e.g. the list collides for another format).
+func planViaConfig(pc *PlanCase, direct []M) string {
+	c := baseCfg("viaconfig")
+	c.Entries = pc.Entries
+	c.Umask, c.NoGlob, c.Pmt = pc.Umask, pc.NoGlob, pc.Pmt
+	y := c.YAML(pc.Root) + "overrides:\n"
+	for _, f := range allFormats {
+		y += "  " + f + ":\n    depends:\n      - dep-" + f + "\n"
+	}
+	cfg, err := parseCfg(y)
+	if err != nil {
+		return "skipped"
+	}
+	for _, f := range allFormats {
+		if f != pc.Pk {
+			if _, err := cfg.Get(f); err != nil {
+				return "skipped"
+			}
+		}
+	}
+	info, err := cfg.Get(pc.Pk)
+	if err != nil {
+		return "differs"
+	}
+	if err := nfpm.PrepareForPackager(info, pc.Pk); err != nil {
+		return "differs"
+	}
+	got := make([]M, 0, len(info.Contents))
+	for _, cc := range info.Contents {
+		got = append(got, planEntryM(pc.Root, cc))
+	}
+	if reflect.DeepEqual(direct, got) {
+		return "agrees"
+	}
+	return "differs"
+}
+
+var nViaConfig int64
+
 func runPlanCase(tr *Trace, pc *PlanCase) {
 	evs := []M{{"ev": "case", "id": pc.ID, "fam": pc.Family, "pk": pc.Pk, "umask": pc.Umask, "noglob": pc.NoGlob,
 		"pmt": pc.Pmt, "tree": pc.TreeNodes, "entries": entriesM(pc.Entries)}}
@@ -207,7 +250,15 @@ func runPlanCase(tr *Trace, pc *PlanCase) {
 				facade = reflect.DeepEqual(plan, p3)
 			}
 		}
-		evs = append(evs, M{"ev": "step", "k": k, "status": st, "msg": safeStr(strings.ReplaceAll(msg, pc.Root, "$ROOT")), "plan": plan, "stable": stable, "facade": facade})
+		viaconfig := "skipped"
+		if k == len(pc.Entries) && st == "run" && pc.Pk != "" && pc.Umask != 0 {
+			viaconfig = planViaConfig(pc, plan)
+			if viaconfig != "skipped" {
+				atomic.AddInt64(&nViaConfig, 1)
+			}
+		}
+		evs = append(evs, M{"ev": "step", "k": k, "status": st, "msg": safeStr(strings.ReplaceAll(msg, pc.Root, "$ROOT")), "plan": plan, "stable": stable, "facade": facade,
+			"viaconfig": viaconfig})
 		if st != "run" {
 			break
 		}
@@ -455,6 +506,25 @@ func famPlan(tr *Trace, scratch string, seed int64, tier string, workers int) M 
 		}
 	}
 
+	// (2d) destinations that differ only in letter case (distinct paths; the order must be the same on every call), listed in
+	// both orders, alone and among other entries
+	nCase := 0
+	for _, pair := range [][2]string{{"/usr/share/doc/README", "/usr/share/doc/readme"}, {"/opt/Makefile", "/opt/makefile"}, {"/etc/App/a.conf", "/etc/app/a.conf"},
+		{"/usr/share/X", "/usr/share/x"}} {
+		for _, pk := range []string{"deb", "rpm", "archlinux"} {
+			for _, flip := range []bool{false, true} {
+				a, b := pair[0], pair[1]
+				if flip {
+					a, b = b, a
+				}
+				add("case", pk, false, 0o22, 1600000000, "MC", root, []Entry{{Type: "file", Src: "s/f1", Dst: a}, {Type: "file", Src: "s/f2.conf", Dst: b}})
+				add("case", pk, false, 0o22, 1600000000, "MC", root, []Entry{{Type: "file", Src: "s/f1", Dst: "/usr/bin/zz"}, {Type: "file", Src: "s/f1", Dst: a},
+					{Type: "symlink", Src: "tgt", Dst: "/usr/share/LINK"}, {Type: "file", Src: "s/f2.conf", Dst: b}, {Type: "symlink", Src: "tgt", Dst: "/usr/share/link"}})
+				nCase += 2
+			}
+		}
+	}
+
 	// (3) random lists over random trees
 	nRand := 150
 	if tier == "thorough" {
@@ -482,7 +552,7 @@ func famPlan(tr *Trace, scratch string, seed int64, tier string, workers int) M 
 			tr.Index(pc.ID, M{"pk": pc.Pk, "umask": pc.Umask, "noglob": pc.NoGlob, "pmt": pc.Pmt, "tree": pc.TreeID, "entries": entriesM(pc.Entries), "fam": pc.Family})
 		}
 	}
-	return M{"cases": len(cases), "exhaustive_lists": nExh, "exhaustive_triples": nExh3, "spellings": nSpell, "globshapes": nGlobx, "fsowned": nFs, "random": nRand,
+	return M{"cases": len(cases), "exhaustive_lists": nExh, "exhaustive_triples": nExh3, "spellings": nSpell, "globshapes": nGlobx, "fsowned": nFs, "case_pairs": nCase, "via_config": int(atomic.LoadInt64(&nViaConfig)), "random": nRand,
 		"options": len(opts), "maxlen": maxLen}
 }
 
